@@ -17,7 +17,9 @@ from observe import pyham, err_name
 P = pyham.parsers.OrthoXMLParser
 NS = '{http://orthoXML.org/2011/}'
 LAST = [None]
-MAX_EVENTS = 4000          # (very large documents are not traced)
+MAX_EVENTS = 6000          # (very large documents are not traced)
+
+DOC_LEVEL = [True]         # record <species> / <gene> calls as events of the second pass (False: groups section only)
 
 class Trace(object):
     def __init__(self):
@@ -34,6 +36,10 @@ class Trace(object):
 def q(s):
     return '"' + str(s).replace('\\', '\\\\').replace('"', '\\"') + '"'
 
+def dobs_of(p):
+    """after a <species> / <gene> call: is a species open, how many gene ids are declared so far"""
+    return 'S%d,%d' % (1 if p.current_species is None else 0, len(p.extant_gene_map))
+
 def obs_of(p):
     # The species-level collapse (observation D7, outside the properties' domain) decrements the depth of a frame; a frame
     # collapsed into twice goes negative in Python where the model's natural number stays at 0.  The two are equivalent: only a
@@ -45,11 +51,18 @@ def obs_of(p):
         ip = max(0, ip)
     return '%d,%d,%s,%s' % (len(p.hog_stack), 1 if p.skip_this_hog else 0, '-' if ip is None else str(ip), fr)
 
-def event_of(kind, tag, attrib):
+def event_of(kind, tag, attrib, doc=True):
     """the machine event of a call, or None"""
     if not tag.startswith(NS):
         return None
     t = tag[len(NS):]
+    if DOC_LEVEL[0] and doc:
+        # the declarations are part of the stream too (document machine, Sax.dstep)
+        if t == 'species':
+            return '(/sp)' if kind == 'end' else ('(sp %s)' % q(attrib['name'])) if 'name' in attrib else None
+        if t == 'gene' and kind == 'start' and 'id' in attrib:
+            # (with the other attribute values: the first pass of a filtered load selects genes by them)
+            return '(gene %s%s)' % (q(attrib['id']), ''.join(' ' + q(v) for k_, v in attrib.items() if k_ != 'id'))
     if kind == 'end':
         return '(/og)' if t == 'orthologGroup' else '(/pg)' if t == 'paralogGroup' else None
     if t == 'orthologGroup':
@@ -107,7 +120,7 @@ def install():
             if len(t.events) >= MAX_EVENTS:
                 t.overflow = True; t.end = 'overflow'
             else:
-                t.events.append(ev); t.obs.append(obs_of(self))
+                t.events.append(ev); t.obs.append(dobs_of(self) if ev.startswith(('(sp ', '(gene ', '(/sp)')) else obs_of(self))
         return r
     def start(self, tag, attrib):
         return call(self, 'start', o_start, tag, attrib)
